@@ -45,6 +45,58 @@ def _run_group(args):
                 'error': '%s: %s\n%s' % (type(e).__name__, e, traceback.format_exc())}
 
 
+def _child(job, q):
+    try:
+        q.put(_run_group(job))
+    except BaseException as e:  # noqa
+        q.put({'group': job[1], 'results': [], 'seconds': 0, 'sources': {}, 'error': 'result could not be returned: %r' % (e,)})
+
+
+def _run_all(jobs, njobs, hard_limit):
+    """one forked process per obligation group, at most njobs at a time; a group that exceeds the hard wall limit (solver or
+    exploration stuck beyond the soft budget) is killed and reported as ONE inconclusive obligation - never as held"""
+    from vsym import ob as _ob
+    ctx = mp.get_context('fork')
+    pending = list(jobs)
+    running = {}      # group -> (process, queue, start)
+    outs = {}
+    while pending or running:
+        while pending and len(running) < njobs:
+            job = pending.pop(0)
+            q = ctx.Queue()
+            pr = ctx.Process(target=_child, args=(job, q))
+            pr.start()
+            running[job[1]] = (pr, q, time.time())
+        for g, (pr, q, st) in list(running.items()):
+            got = None
+            try:
+                got = q.get(timeout=0.05)
+            except Exception:  # noqa (queue.Empty)
+                pass
+            if got is not None:
+                outs[g] = got
+                pr.join(10)
+                if pr.is_alive():
+                    pr.kill()
+                del running[g]
+            elif not pr.is_alive():
+                try:
+                    outs[g] = q.get(timeout=1)
+                except Exception:  # noqa
+                    outs[g] = {'group': g, 'results': [], 'seconds': time.time() - st, 'sources': {}, 'error': 'worker died without a result (exit code %s)' % pr.exitcode}
+                del running[g]
+            elif time.time() - st > hard_limit:
+                pr.kill()
+                pr.join(5)
+                outs[g] = {'group': g, 'seconds': time.time() - st, 'sources': {}, 'error': None,
+                           'results': [_ob.res('-', 'obligation group %s' % g, 'inconclusive', [],
+                                               'group stopped at its hard wall limit of %d s (soft budget exceeded, solver or exploration did not return); '
+                                               'its obligations are undecided' % hard_limit)]}
+                del running[g]
+        time.sleep(0.05)
+    return [outs[j[1]] for j in jobs]
+
+
 def main(argv=None):
     ap = argparse.ArgumentParser()
     ap.add_argument('id')
@@ -77,12 +129,9 @@ def main(argv=None):
         gnames = [g for g in gnames if g in keep]
 
     jobs = [(modname, g, a.tier, seed) for g in gnames]
-    if a.jobs <= 1 or len(jobs) <= 1:
-        outs = [_run_group(j) for j in jobs]
-    else:
-        ctx = mp.get_context('fork')
-        with ctx.Pool(min(a.jobs, len(jobs))) as pool:
-            outs = pool.map(_run_group, jobs, chunksize=1)
+    budget = getattr(mod, 'GROUP_BUDGET', {'quick': 240, 'thorough': 1800})[a.tier]
+    hard = float(os.environ.get('VERIF_GROUP_HARD_LIMIT', '0')) or ((3 * budget + 120) if a.tier == 'quick' else (1.5 * budget + 120))
+    outs = _run_all(jobs, max(1, a.jobs), hard)
 
     results, sources, errors = [], {}, []
     for o in outs:
